@@ -204,7 +204,7 @@ IMPORTS["str"] = _strnum
 
 def _cur_make(kind, nact=3):
     def make(ex, st):
-        cfg = {"simulation": {"interfaces": [fresh(f"i{k}", REAL) for k in range(3)], "load_dir": "load"}, "output": {}}
+        cfg = {"simulation": {"interfaces": [fresh(f"i{k}", REAL) for k in range(3)], "load_dir": "load", "steps": fresh("steps", INT)}, "output": {}}
         if kind != "fresh":
             cur = {"cstep": fresh("cstep", INT), "active": [fresh(f"act{k}", INT) for k in range(nact)]}
             if kind == "restarted_before":
